@@ -229,7 +229,8 @@ Arith(op, a, b) ==
   ELSE IF op = "add" /\ a.t = "bytes" /\ b.t = "bytes" THEN D(E(TypeErr))   \* CEL concatenates; not implemented
   ELSE IF op \in {"add", "sub"} /\ a.t = "dur" /\ b.t = "dur" THEN
         LET n == IF op = "add" THEN Z!Add(a.n, b.n) ELSE Z!Sub(a.n, b.n)
-        IN  IF InI64(n) THEN R(VDur(n)) ELSE E({"overflow", "type", "fnerr"})
+        IN  IF InI64(n) THEN R(VDur(n))
+            ELSE D(E({"overflow", "type", "fnerr"}))     \* beyond 64-bit nanoseconds: an error, or a wider host duration
   ELSE IF (op = "add" /\ a.t = "ts" /\ b.t = "dur") \/ (op = "add" /\ a.t = "dur" /\ b.t = "ts")
           \/ (op = "sub" /\ a.t = "ts" /\ b.t = "dur") THEN
         LET ts == IF a.t = "ts" THEN a ELSE b
